@@ -18,6 +18,12 @@ A case may also describe the store the arbiter is built on and what happens befo
   "ops":  [["set", k, sel] | ["readd", k, sel] | ["drop", k] | ["rebuild", [permutation]]] applied after construction:
           selection changed in place / field deleted and added again (moves to the end of the share) / deleted /
           a new arbiter built on the same store and group with its inputs listed in another order
+  "stamp0": None | num   store stamp at construction (default 0.0)
+  "hist":  [[write, …], …] after the first observed update(): each step = writes, then update() on the SAME arbiter
+          instance, observed again.  write = ["stamp", num|None] (store.changeStamp / stamp None)
+          | ["sel", k, how, sel] how in update (stamps the share) / change / item / attr (do not stamp)
+          | ["imp", k, how, num] | ["value", k, how, val] how in value / update / change / item | ["truth", k, truth]
+          every observed update() must be what the rules give on the CURRENT contents
 The model's and the oracle's input order is the order of the LAST construction; their selections and importances
 are the values the documented rules give (pre-existing field, else constructor argument, then the ops).
 case = {"arb": switch|priority|trusted|weighted, "mode": q|f, "dv": val, "dt": truth (as found by __init__),
@@ -25,7 +31,7 @@ case = {"arb": switch|priority|trusted|weighted, "mode": q|f, "dv": val, "dt": t
 tokens: None -> null, bools -> true/false, numbers "i:<int>" | "q:<p>/<q>" (float, exact) | "x:<hex16>", strings "s:<n>"
 shape: how the input share looks: has a value field / only another field / no field at all (value is then None)
 """
-import struct, itertools
+import struct, itertools, json
 from fractions import Fraction as F
 import core
 
@@ -99,7 +105,11 @@ class CHECK(core.Check):
             "with their fields in a permuted order, some missing, extra tags; after construction selections are "
             "changed in place, deleted, deleted and re-added (field moves to the end), or a new arbiter is built on the "
             "same store and group with its inputs in another order; the observed update() must follow the input order "
-            "of the last construction")
+            "of the last construction. 30% of the exact-mode cases continue with a HISTORY: 1..3 further update() calls of the "
+            "same arbiter instance, each preceded by writes to the selections, importances, input values and truths through "
+            "every write path (update = stamping; change / item assignment / attribute of the record = not stamping; .value "
+            "setter; truth setter) with the store stamp None, unchanged or advanced; every update() is compared with the "
+            "model and the rule on the current contents")
     TRUSTED = ["correspondence: arbiting.ArbiterSwitch/Priority/Trusted/Weighted instances built on a real storing.Store "
                "through their constructor, one update(); output share .value/.truth compared with the Lean driver 'arbiter'",
                "the check is meant for /repo + fixes/D24-arbiter-trusted-imputmax.patch + fixes/D25b-arbiter-inputmax-truthiness.patch",
@@ -196,6 +206,34 @@ class CHECK(core.Check):
             case["ops"] = ops
         return case
 
+    def _history(self, rng, case):
+        """writes between several update() calls of the same instance"""
+        n = len(case["ins"])
+        if n == 0:
+            return case
+        case["stamp0"] = rng.choice([None, "q:0/1", "q:1/1", "q:5/2"])
+        hist = []
+        stamp = 1
+        for _ in range(rng.choice([1, 2, 2, 3])):
+            writes = []
+            if rng.random() < 0.4:
+                stamp += rng.choice([0, 1])
+                writes.append(["stamp", rng.choice([None, "i:%d" % stamp, "i:%d" % stamp, "q:%d/2" % (2 * stamp + 1)])])
+            for _ in range(rng.choice([1, 1, 2, 3])):
+                k = rng.randrange(n)
+                r = rng.random()
+                if r < 0.5:
+                    writes.append(["sel", k, rng.choice(["update", "change", "item", "attr"]), rng.choice(self.SELS)])
+                elif r < 0.7:
+                    writes.append(["imp", k, rng.choice(["update", "change", "item", "attr"]), rng.choice(self.IMPS)])
+                elif r < 0.85:
+                    writes.append(["value", k, rng.choice(["value", "update", "change", "item"]), rng.choice(self.VALUES)])
+                else:
+                    writes.append(["truth", k, rng.choice(self.TRUTHS)])
+            hist.append(writes)
+        case["hist"] = hist
+        return case
+
     def _gen_f(self, rng, tier):
         def X(v):
             return "x:" + struct.pack(">d", float(v)).hex()
@@ -217,6 +255,8 @@ class CHECK(core.Check):
                         if rng.random() < 0.7:
                             x["sel"] = True
                 c = self._scenario(rng, c)
+            if c["mode"] == "q" and rng.random() < 0.3:
+                c = self._history(rng, c)
             yield c
 
     def exhaustive(self, tier):
@@ -264,6 +304,37 @@ class CHECK(core.Check):
                         sel[k] = ins[k]["sel"]        # the new constructor creates the missing field from its argument
         return [dict(ins[k], sel=sel[k], imp=imp[k]) for k in order]
 
+    def _views(self, case):
+        """one derived plain case per observed update(): the inputs as they are at that moment"""
+        first = self._eff(case)
+        base = {k: v for k, v in case.items() if k not in ("pre", "ops", "hist", "stamp0")}
+        views = [dict(base, ins=[dict(i) for i in first])]
+        if not case.get("hist"):
+            return views
+        # position of original input k in the current order
+        order = list(range(len(case["ins"])))
+        for op in case.get("ops", []):
+            if op[0] == "rebuild":
+                order = list(op[1])
+        cur = [dict(i) for i in first]
+        pos = {k: j for j, k in enumerate(order)}
+        for writes in case["hist"]:
+            for w in writes:
+                if w[0] == "stamp":
+                    continue
+                j = pos[w[1]]
+                if w[0] == "sel":
+                    cur[j]["sel"] = w[3]
+                elif w[0] == "imp":
+                    cur[j]["imp"] = w[3]
+                elif w[0] == "value":
+                    cur[j]["value"] = w[3]
+                    cur[j]["shape"] = "value"
+                elif w[0] == "truth":
+                    cur[j]["truth"] = w[2]
+            views.append(dict(base, ins=[dict(i) for i in cur]))
+        return views
+
     @staticmethod
     def _dropped(case, upto):
         """{("dropped", k)} for selection fields that do not exist when op `upto` runs"""
@@ -284,7 +355,7 @@ class CHECK(core.Check):
         from ioflo.base import arbiting, storing
         from ioflo.aid.odicting import odict
         mode = case["mode"]
-        store = storing.Store(stamp=0.0)
+        store = storing.Store(stamp=py(case["stamp0"]) if "stamp0" in case else 0.0)
         d = store.create(".grp.default")
         d.update(value=py(case["dv"]))
         d.truth = py(case["dt"])
@@ -332,7 +403,55 @@ class CHECK(core.Check):
             arb.update()
         except Exception as ex:
             return ["E %s" % type(ex).__name__]
-        return ["%s %s" % (val_wire(arb.output.value, mode), val_wire(arb.output.truth, mode))]
+        out = ["%s %s" % (val_wire(arb.output.value, mode), val_wire(arb.output.truth, mode))]
+        for writes in case.get("hist", []):
+            try:
+                for w in writes:
+                    if w[0] == "stamp":
+                        if w[1] is None:
+                            store.stamp = None
+                        else:
+                            store.changeStamp(py(w[1]))
+                        continue
+                    t = "t%d" % w[1]
+                    if w[0] in ("sel", "imp"):
+                        sh = arb.insels if w[0] == "sel" else arb.inimps
+                        v = self._sel_py(w[3]) if w[0] == "sel" else py(w[3])
+                        how = w[2]
+                        if how == "update":
+                            sh.update(**{t: v})
+                        elif how == "change":
+                            sh.change(**{t: v})
+                        elif how == "item":
+                            sh[t] = v
+                        elif how == "attr":
+                            setattr(sh.data, t, v)
+                        else:
+                            raise core.Infra("bad write " + how)
+                    elif w[0] == "value":
+                        sh, v, how = arb.inputs[t], py(w[3]), w[2]
+                        if how == "value":
+                            sh.value = v
+                        elif how == "update":
+                            sh.update(value=v)
+                        elif how == "change":
+                            sh.change(value=v)
+                        elif how == "item":
+                            sh["value"] = v
+                        else:
+                            raise core.Infra("bad write " + how)
+                    elif w[0] == "truth":
+                        arb.inputs[t].truth = py(w[2])
+                    else:
+                        raise core.Infra("bad write %r" % (w,))
+                arb.update()
+            except core.Infra:
+                raise
+            except Exception as ex:
+                out.append("E %s" % type(ex).__name__)
+                continue
+            out.append("%s %s" % (val_wire(arb.output.value, mode), val_wire(arb.output.truth, mode)))
+        return out
 
     # ------------------------------------------------------------------ model
     def _in_wire(self, i, mode):
@@ -347,14 +466,14 @@ class CHECK(core.Check):
         # exact evaluation of the numbers (comparisons only): the same predicate in both modes
         return " ".join(["q", "d25region", val_wire(py(case["dt"]), "q")] + [self._in_wire(i, "q") for i in self._eff(case)])
 
-    def requests(self, case):
+    def _requests1(self, case):
         if case["mode"] == "q" and case["arb"] == "weighted":
             return [self._line(case, "q"), self._line(case, "f")]      # exact and Float instantiation
         if case["arb"] == "priority":
             return [self._line(case, case["mode"]), self._region_line(case)]   # + region of D25 (cached for region())
         return [self._line(case, case["mode"])]
 
-    def model_post(self, case, replies):
+    def _model_post1(self, case, replies):
         """weighted in mode q: the exact result when every number of it is a double (then the float division is
         exact too), else the Float instantiation's result written as the rational it is"""
         if case["arb"] == "priority":
@@ -377,7 +496,7 @@ class CHECK(core.Check):
 
     _regions = {}
 
-    def region(self, finding, case):
+    def _region1(self, finding, case):
         """D25: Ioflo.Arbiter.nonPosCandidate, evaluated by the Lean driver (answer cached by model_post)"""
         if finding.get("id") != "D25" or case["arb"] != "priority":
             return False
@@ -385,6 +504,33 @@ class CHECK(core.Check):
         if k not in self._regions:
             self._regions[k] = core.Driver(self.ENGINE).run([self._region_line(case)]) == ["1"]
         return self._regions[k]
+
+    # ---- several observed updates: every observation is a plain case of its own (`_views`)
+    def requests(self, case):
+        return [r for v in self._views(case) for r in self._requests1(v)]
+
+    def model_post(self, case, replies):
+        out, i = [], 0
+        for v in self._views(case):
+            n = len(self._requests1(v))
+            out.extend(self._model_post1(v, replies[i:i + n]))
+            i += n
+        return out
+
+    def region(self, finding, case):
+        return any(self._region1(finding, v) for v in self._views(case))
+
+    def oracle(self, case, out):
+        views = self._views(case)
+        if len(out) != len(views):
+            return "unexpected output %r" % (out,)
+        for j, (v, o) in enumerate(zip(views, out)):
+            why = self._oracle1(v, [o])
+            if why is not None:
+                if len(views) > 1:
+                    why = "update() number %d%s: %s" % (j + 1, (" after " + json.dumps(case["hist"][j - 1])) if j else "", why)
+                return why
+        return None
 
     # ------------------------------------------------------------------ oracle
     def expected(self, case):
@@ -422,7 +568,7 @@ class CHECK(core.Check):
             return (V / C, C / W)
         return default
 
-    def oracle(self, case, out):
+    def _oracle1(self, case, out):
         if len(out) != 1:
             return "unexpected output %r" % (out,)
         if out[0].startswith("E ") or out[0].startswith("HARNESS"):
@@ -459,6 +605,8 @@ class CHECK(core.Check):
 
     # ------------------------------------------------------------------ statistics
     def nontrivial(self, case, out):
+        if case.get("hist"):
+            return len(set(out)) > 1 and not any(o.startswith(("E", "HARNESS")) for o in out)
         if not out or out[0].startswith(("E", "HARNESS")):
             return False
         anysel = any(bool(self._sel_py(i["sel"])) for i in self._eff(case))
@@ -471,7 +619,7 @@ class CHECK(core.Check):
         kind = "default" if not self.nontrivial(case, out) else "input"
         if out and out[0].startswith("E"):
             kind = "raised"
-        sc = ("+pre" if case.get("pre") else "") + ("+ops" if case.get("ops") else "")
+        sc = ("+pre" if case.get("pre") else "") + ("+ops" if case.get("ops") else "") + ("+hist" if case.get("hist") else "")
         return "%s/%s%s/n%d%s/%s" % (case["mode"], case["arb"], sc, min(n, 4), "+" if n > 4 else "",
                                    kind + ("/emptyshare" if "empty" in shapes else ""))
 
@@ -481,6 +629,22 @@ class CHECK(core.Check):
                 yield c
 
     def _shrink(self, case):
+        if case.get("hist"):
+            h = case["hist"]
+            for k in range(len(h) - 1, -1, -1):
+                c = dict(case)
+                c["hist"] = h[:k] + h[k + 1:]
+                if not c["hist"]:
+                    c.pop("hist")
+                yield c
+            for k, ws in enumerate(h):
+                for j in range(len(ws)):
+                    if len(ws) > 1:
+                        c = dict(case)
+                        c["hist"] = [list(x) for x in h]
+                        c["hist"][k] = ws[:j] + ws[j + 1:]
+                        yield c
+            return
         if case.get("ops"):
             for k in range(len(case["ops"])):
                 c = dict(case)
